@@ -548,13 +548,21 @@ fn misuse_part(rep: &mut Report) {
         // disconnecting an already disconnected player: a valid disconnect first, then the same
         // handle again or (two players at one address) its sibling, which went with it
         if !hs {
+            // the second call comes 2 rounds later, or long after: the endpoint of a disconnected
+            // player lingers for 5 s (300 rounds) and is then shut down for good
             for r in [2, 5] {
-                for sibling in 0..base.peers[1].locals.len() {
-                    let mut s = base.clone();
-                    s.script.push(ScriptItem { round: r, node: 0, action: Action::Disconnect { handle: remote_h } });
-                    s.name = format!("{} valid disconnect@{r} then again sibling={sibling}", base.name);
-                    s.checks = crate::props::drop::CK_DROP;
-                    scns.push(s);
+                for gap in [2, 40, 299, 301, 310, 420] {
+                    if !t && r == 5 && gap != 2 && gap != 310 {
+                        continue;
+                    }
+                    for sibling in 0..base.peers[1].locals.len() {
+                        let mut s = base.clone();
+                        s.script.push(ScriptItem { round: r, node: 0, action: Action::Disconnect { handle: remote_h } });
+                        s.probe = s.probe.max(gap + 40);
+                        s.name = format!("{} valid disconnect@{r} then again gap={gap} sibling={sibling}", base.name);
+                        s.checks = crate::props::drop::CK_DROP;
+                        scns.push(s);
+                    }
                 }
             }
         }
@@ -579,7 +587,8 @@ fn misuse_judge_wrapper(scn: &Scenario, res: &ExecResult, b: Option<&ExecResult>
         if let Action::Disconnect { handle } = scn.script[0].action {
             let sib: usize = scn.name.rsplit("sibling=").next().and_then(|x| x.parse().ok()).unwrap_or(0);
             let h2 = scn.peers[scn.owner_of(handle)].locals.get(sib).copied().unwrap_or(handle);
-            s2.script.push(ScriptItem { round: r + 2, node: 0, action: Action::Disconnect { handle: h2 } });
+            let gap: i32 = scn.name.split("gap=").nth(1).and_then(|x| x.split(' ').next()).and_then(|x| x.parse().ok()).unwrap_or(2);
+            s2.script.push(ScriptItem { round: r + gap, node: 0, action: Action::Disconnect { handle: h2 } });
         }
         let res2 = run_scn(&s2, &Vec::new(), &RunOpt::default());
         let nt = &res2.nodes[0];
